@@ -40,6 +40,9 @@ type sigEntry struct {
 	Kind string `json:"kind"` // func | method | type | const | var
 	Recv string `json:"recv,omitempty"`
 	Sig  string `json:"sig"`
+	// Ord: declaration order within the package (files by name, then offset): used only to pair several
+	// renamed declarations that share one signature (addSession/removeSession -> trackSession/untrackSession)
+	Ord int `json:"ord,omitempty"`
 }
 
 // pkgDecls: name -> signature of every package-level declaration (methods as "Recv.name").
@@ -66,17 +69,25 @@ func pkgDecls(dir string) (map[string]sigEntry, error) {
 		}
 		return t
 	}
+	ord := 0
 	for _, p := range pkgs {
-		for _, f := range p.Files {
+		var fnames []string
+		for fn := range p.Files {
+			fnames = append(fnames, fn)
+		}
+		sort.Strings(fnames)
+		for _, fn := range fnames {
+			f := p.Files[fn]
 			for _, d := range f.Decls {
+				ord++
 				switch d := d.(type) {
 				case *ast.FuncDecl:
 					ft := stripNames(d.Type)
 					if d.Recv != nil && len(d.Recv.List) == 1 {
 						recv := show(d.Recv.List[0].Type)
-						out[strings.TrimPrefix(recv, "*")+"."+d.Name.Name] = sigEntry{Kind: "method", Recv: recv, Sig: show(ft)}
+						out[strings.TrimPrefix(recv, "*")+"."+d.Name.Name] = sigEntry{Kind: "method", Recv: recv, Sig: show(ft), Ord: ord}
 					} else {
-						out[d.Name.Name] = sigEntry{Kind: "func", Sig: show(ft)}
+						out[d.Name.Name] = sigEntry{Kind: "func", Sig: show(ft), Ord: ord}
 					}
 				case *ast.GenDecl:
 					// a const block that uses iota: every constant is identified by its position in the
@@ -399,7 +410,7 @@ func main() {
 		}
 		aliases, an := renameAliases(sp, keep, baseline[rel], cur)
 		notes = append(notes, an...)
-		fieldRen, fn := fieldRenames(rel, baseline[rel], cur)
+		fieldRen, fieldRenByType, fn := fieldRenames(rel, baseline[rel], cur)
 		notes = append(notes, fn...)
 		// assemble the file
 		var body strings.Builder
@@ -408,7 +419,7 @@ func main() {
 			if !keep[d] {
 				continue
 			}
-			src := d.src
+			src := typedFieldRewrite(d.src, fieldRenByType)
 			for o, n := range fieldRen {
 				if d.sels[o] {
 					src = regexp.MustCompile(`\.`+regexp.QuoteMeta(o)+`\b`).ReplaceAllString(src, "."+n)
@@ -553,6 +564,37 @@ func renameAliases(sp *shimPkg, keep map[*shimDecl]bool, base, cur map[string]si
 					c = append(c, n[strings.LastIndex(n, ".")+1:])
 				}
 			}
+			if len(c) > 1 {
+				// several new methods share the signature: pair them, in declaration order, with the
+				// vanished methods of the pinned tree that share it (same count required)
+				var olds, news []string
+				for k2, b2 := range base {
+					if b2.Kind == "method" && subst(b2.Recv) == recv && subst(b2.Sig) == subst(b.Sig) {
+						t2 := strings.TrimSuffix(k2, k2[strings.LastIndex(k2, "."):])
+						if nt, ok := typeRen[t2]; ok {
+							t2 = nt
+						}
+						if _, present := cur[t2+k2[strings.LastIndex(k2, "."):]]; !present {
+							olds = append(olds, k2)
+						}
+					}
+				}
+				for n, e := range cur {
+					if e.Kind == "method" && e.Recv == recv && e.Sig == subst(b.Sig) && isNew(n) {
+						news = append(news, n)
+					}
+				}
+				sort.Slice(olds, func(i, j int) bool { return base[olds[i]].Ord < base[olds[j]].Ord })
+				sort.Slice(news, func(i, j int) bool { return cur[news[i]].Ord < cur[news[j]].Ord })
+				c = nil
+				if len(olds) == len(news) {
+					for i, o := range olds {
+						if o == key {
+							c = []string{news[i][strings.LastIndex(news[i], ".")+1:]}
+						}
+					}
+				}
+			}
 			if len(c) == 1 {
 				out = append(out, forwarder(recv, "", s, c[0], subst(b.Sig)))
 				notes = append(notes, fmt.Sprintf("%s: method %s.%s is now %s", sp.dir, recvT, s, c[0]))
@@ -565,7 +607,7 @@ func renameAliases(sp *shimPkg, keep map[*shimDecl]bool, base, cur map[string]si
 // fieldRenames: struct fields of the package's types that kept their position and type but changed
 // their name (old name -> new name).  A name that would map to two different new names, or that is
 // still a field of some struct of the package, is left alone.
-func fieldRenames(rel string, base, cur map[string]sigEntry) (map[string]string, []string) {
+func fieldRenames(rel string, base, cur map[string]sigEntry) (map[string]string, map[string]map[string]string, []string) {
 	typeRen := typeRenames(base, cur)
 	stillUsed := map[string]bool{}
 	for _, e := range cur {
@@ -576,6 +618,7 @@ func fieldRenames(rel string, base, cur map[string]sigEntry) (map[string]string,
 		}
 	}
 	ren := map[string]string{}
+	perType := map[string]map[string]string{} // pinned struct type -> old field -> new field
 	bad := map[string]bool{}
 	var notes []string
 	var names []string
@@ -608,8 +651,15 @@ func fieldRenames(rel string, base, cur map[string]sigEntry) (map[string]string,
 		}
 		for i := range bf {
 			o, nn := bf[i][0], cf[i][0]
-			if o == nn || o == "" || nn == "" || stillUsed[o] {
+			if o == nn || o == "" || nn == "" {
 				continue
+			}
+			if perType[n] == nil {
+				perType[n] = map[string]string{}
+			}
+			perType[n][o] = nn
+			if stillUsed[o] {
+				continue // only rewritten where the receiver's type is known (typed rewrite below)
 			}
 			if prev, ok := ren[o]; ok && prev != nn {
 				bad[o] = true
@@ -624,7 +674,45 @@ func fieldRenames(rel string, base, cur map[string]sigEntry) (map[string]string,
 	for o := range bad {
 		delete(ren, o)
 	}
-	return ren, notes
+	return ren, perType, notes
+}
+
+// typedFieldRewrite: in a shim function, `v.old` -> `v.new` for every parameter `v` whose declared type is
+// (a pointer to) a struct type with a renamed field - also when another struct still has a field `old`.
+func typedFieldRewrite(src string, perType map[string]map[string]string) string {
+	if len(perType) == 0 {
+		return src
+	}
+	f, err := parser.ParseFile(token.NewFileSet(), "", "package p\n"+src, 0)
+	if err != nil {
+		return src
+	}
+	for _, d := range f.Decls {
+		fd, ok := d.(*ast.FuncDecl)
+		if !ok || fd.Type.Params == nil {
+			continue
+		}
+		fields := fd.Type.Params.List
+		if fd.Recv != nil {
+			fields = append(append([]*ast.Field{}, fd.Recv.List...), fields...)
+		}
+		for _, p := range fields {
+			t := p.Type
+			if st, ok := t.(*ast.StarExpr); ok {
+				t = st.X
+			}
+			id, ok := t.(*ast.Ident)
+			if !ok || perType[id.Name] == nil {
+				continue
+			}
+			for _, v := range p.Names {
+				for o, n := range perType[id.Name] {
+					src = regexp.MustCompile(`\b`+regexp.QuoteMeta(v.Name)+`\.`+regexp.QuoteMeta(o)+`\b`).ReplaceAllString(src, v.Name+"."+n)
+				}
+			}
+		}
+	}
+	return src
 }
 
 // structFields: (name, type) of every field of a struct type printed on one line; nil if not a struct.
